@@ -456,18 +456,26 @@ GLOBAL_TRUSTED = [
 ]
 
 
-def proof_stage(res, pid, extra_targets=(), with_override=False):
+def proof_stage(res, pid, extra_targets=(), with_override=False, files=None):
     """steps 1-3 of DESIGN 2.4. Fills res.cov obligations/discharged/checker_cmd/trusted_base.
-    returns True when proofs are all checked"""
+    `files`: the property files (names under coq/Properties, without .v) that carry this property's theorems
+    (default [pid]); returns True when all of them are checked"""
+    files = list(files) if files else [pid]
     ok, msg, changed = gen(with_override)
     if not ok:
         res.violation("gen", "translator failed, model cannot be regenerated from the current tree: " + msg)
         return False
     if changed:
         log("[gen] regenerated: " + ", ".join(changed))
-    deps_ok, mlog, mcmd = coq_make(["Properties/%s.vo" % pid] + list(extra_targets))
-    thms = property_file_theorems(pid)
-    res.cov["obligations"] = len(thms)
+    missing = [f for f in files if not os.path.exists(os.path.join(COQ, "Properties", f + ".v"))]
+    if missing:
+        res.violation("proof:missing", "property file(s) missing: " + ", ".join(missing), witness=None)
+        return False
+    deps_ok, mlog, mcmd = coq_make(["Properties/%s.vo" % f for f in files] + list(extra_targets))
+    thms_all = []
+    for f in files:
+        thms_all += property_file_theorems(f)
+    res.cov["obligations"] = len(thms_all)
     res.cov["checker_cmd"] = mcmd
     res.cov["trusted_base"] = list(GLOBAL_TRUSTED)
     if not deps_ok:
@@ -482,16 +490,22 @@ def proof_stage(res, pid, extra_targets=(), with_override=False):
         else:
             res.violation("proof:make", "coq build failed: " + mlog[-1500:], witness=None)
         return False
-    ok, thms, assum, out, cmd = check_property_file(pid)
-    res.cov["checker_cmd"] = mcmd + " ; " + cmd
-    if not ok:
-        res.violation("proof:Properties/%s.v" % pid, "property file rejected: " + out[-1500:], witness=None)
-        return False
-    res.cov["discharged"] = len(thms)
-    res.cov["theorems"] = thms
-    axioms = sorted(set(b for b in assum.values() if not b.startswith("Closed under")))
-    res.cov["print_assumptions"] = {k: v for k, v in assum.items()}
-    res.cov["trusted_base"].append("Print Assumptions: " + ("all %d theorems closed under the global context" % len(assum)
+    discharged = 0; all_assum = {}; cmds = [mcmd]
+    for f in files:
+        ok, thms, assum, out, cmd = check_property_file(f)
+        cmds.append(cmd)
+        if not ok:
+            res.cov["discharged"] = discharged
+            res.violation("proof:Properties/%s.v" % f, "property file rejected: " + out[-1500:], witness=None)
+            return False
+        discharged += len(thms); all_assum.update(assum)
+    res.cov["checker_cmd"] = " ; ".join(cmds)
+    res.cov["discharged"] = discharged
+    res.cov["theorems"] = thms_all
+    res.cov["property_files"] = ["coq/Properties/%s.v" % f for f in files]
+    axioms = sorted(set(b for b in all_assum.values() if not b.startswith("Closed under")))
+    res.cov["print_assumptions"] = dict(all_assum)
+    res.cov["trusted_base"].append("Print Assumptions: " + ("all %d theorems closed under the global context" % len(all_assum)
                                    if not axioms else "; ".join(axioms)))
     bad = grep_gate()
     if bad:
